@@ -186,7 +186,7 @@ async fn pump(mut r: tokio::io::ReadHalf<tokio::io::DuplexStream>, mut w: tokio:
 }
 
 /// Creates the two endpoint streams and starts the relay between them
-fn make_link(p: &mut Prng, max_chunk: u64, delay_pct: u64, max_delay_ms: u64, cut_after: [u64; 2]) -> (tokio::io::DuplexStream, tokio::io::DuplexStream, Arc<Link>) {
+pub fn make_link(p: &mut Prng, max_chunk: u64, delay_pct: u64, max_delay_ms: u64, cut_after: [u64; 2]) -> (tokio::io::DuplexStream, tokio::io::DuplexStream, Arc<Link>) {
     let (a_end, ra) = tokio::io::duplex(1 << 16);
     let (rb, b_end) = tokio::io::duplex(1 << 16);
     let (tx, _rx) = tokio::sync::watch::channel(false);
